@@ -185,8 +185,9 @@ theorem dnaPool_of_designed {pool : List Fragment} (hd : designed pool = true) :
   simp only [designed, Bool.and_eq_true] at hd
   exact hd.1.1
 
-/-- The property on its quantifier.  For a designed assembly (`designed pool`: ACGT, no self-complementary
-overhang, among non-dead-end oriented fragments the forward overhang determines the reverse overhang), in
+/-- The property on its quantifier.  For a designed assembly (`designed pool`: ACGT; among the oriented fragments
+that survive the pruning of dead ends to the fixpoint no junction overhang is self-complementary and the forward
+overhang determines the reverse overhang — decoys of any shape are pruned), in
 every arrival order, the molecules `CircularLigate` returns are EXACTLY the molecules of the simple rings —
 none missing, none spurious (in particular no multi-lap concatemer of alternatives) — and
 (`ligate_unique_keys`) no molecule twice. -/
@@ -231,6 +232,16 @@ example : designed [⟨"AC".toList, "AATG".toList, "GCTT".toList⟩, ⟨"GG".toL
 -- … with a dead-end decoy and a fragment supplied on the other strand it still is
 example : designed [⟨"AC".toList, "AATG".toList, "GCTT".toList⟩, flip ⟨"GG".toList, "GCTT".toList, "AATG".toList⟩,
     ⟨"TT".toList, "AATG".toList, "CCGA".toList⟩] = true := by decide
+-- … so it is with two decoys that share their dead-end overhang, two that share their lead-in overhang, a chain of two
+-- decoys, and a decoy whose dead end is palindromic (ring AATG→GCTT→AATG)
+example : designed [⟨"AC".toList, "AATG".toList, "GCTT".toList⟩, ⟨"GG".toList, "GCTT".toList, "AATG".toList⟩,
+    ⟨"TT".toList, "AATG".toList, "CCGA".toList⟩, ⟨"CA".toList, "GCTT".toList, "CCGA".toList⟩] = true := by decide
+example : designed [⟨"AC".toList, "AATG".toList, "GCTT".toList⟩, ⟨"GG".toList, "GCTT".toList, "AATG".toList⟩,
+    ⟨"TT".toList, "CCGA".toList, "AATG".toList⟩, ⟨"CA".toList, "CCGA".toList, "GCTT".toList⟩] = true := by decide
+example : designed [⟨"AC".toList, "AATG".toList, "GCTT".toList⟩, ⟨"GG".toList, "GCTT".toList, "AATG".toList⟩,
+    ⟨"TT".toList, "AATG".toList, "CCGA".toList⟩, ⟨"CA".toList, "CCGA".toList, "TGAC".toList⟩] = true := by decide
+example : designed [⟨"AC".toList, "AATG".toList, "GCTT".toList⟩, ⟨"GG".toList, "GCTT".toList, "AATG".toList⟩,
+    ⟨"TT".toList, "AATG".toList, "AATT".toList⟩] = true := by decide
 -- … a pool with a backward fragment (s, f, g, h of the findings note) is not
 example : designed [⟨"AC".toList, "AATG".toList, "GCTT".toList⟩, ⟨"GG".toList, "GCTT".toList, "CCGA".toList⟩,
     ⟨"TT".toList, "CCGA".toList, "GCTT".toList⟩, ⟨"CA".toList, "GCTT".toList, "AATG".toList⟩] = false := by decide
@@ -388,5 +399,14 @@ theorem goldenGate_exact (cut : Part → List Fragment) (parts : List Part) (hdn
     (∀ os, Ring (goldenGatePool cut parts) os → Simple os → ∃ c ∈ goldenGate cut parts arr, SameMolecule (molecule os) c) ∧
     ((goldenGate cut parts arr).Pairwise fun a b => ¬ SameMolecule a b) :=
   ⟨ligate_sound_result _ harr, fun _ hr hs => ligate_complete _ hdna hr hs harr, ligate_unique _ hdna harr⟩
+
+/-- the property as stated, for GoldenGate: if the fragments the parts are cut into form a designed assembly, the
+molecules returned are exactly those of its simple rings, each exactly once -/
+theorem goldenGate_designed (cut : Part → List Fragment) (parts : List Part) (hd : designed (goldenGatePool cut parts) = true)
+    {arr : List Str} (harr : arr.Perm (emitted (goldenGatePool cut parts))) :
+    (∀ k, k ∈ (goldenGate cut parts arr).map key ↔
+      ∃ os, Ring (goldenGatePool cut parts) os ∧ Simple os ∧ k = key (molecule os)) ∧
+    ((goldenGate cut parts arr).map key).Nodup :=
+  ⟨ligate_designed _ hd harr, ligate_unique_keys _ arr⟩
 
 end PolyVerif.Props.C09
